@@ -90,3 +90,88 @@ func cliSignalCase(prop string, idx int, seed int64) (string, bool) {
 	}
 	return fmt.Sprintf("%s cli%d.0 cli.signal;nt 0 %d %d %d %d %d", prop, idx, atomic.LoadInt64(&served), n, bz(seqsOK), bz(exitOK), bz(inTime)), true
 }
+
+
+// cliSignalTwice: two of the first requests never complete.  After a first interrupt the command
+// has to wait for them (their results are still owed); a second interrupt finds the stop already
+// initiated (Stop reports false) and ends the command at once, with status 0.
+// Wire: "<prop> <id> cli.signal2;nt -1 <hung> <results> <dup_free> <exit_ok> <alive_after_first> <in_time>"
+func cliSignalTwice(prop string, idx int, seed int64) (string, bool) {
+	bin := os.Getenv("VERIF_VEGETA")
+	if bin == "" {
+		return "", false
+	}
+	if _, err := os.Stat(bin); err != nil {
+		return "", false
+	}
+	rng := rand.New(rand.NewSource(seed*104729 + int64(idx)))
+	var arrived, hung int64
+	release := make(chan struct{})
+	nhang := int64(1 + rng.Intn(3))
+	srv := httptest.NewServer(http.HandlerFunc(func(w http.ResponseWriter, r *http.Request) {
+		if atomic.AddInt64(&arrived, 1) <= nhang {
+			atomic.AddInt64(&hung, 1)
+			select {
+			case <-release:
+			case <-r.Context().Done():
+			}
+			return
+		}
+		w.Write([]byte("ok"))
+	}))
+	defer srv.Close()
+	defer close(release)
+	out := filepath.Join(os.Getenv("VERIF_SCRATCH"), fmt.Sprintf("c02cli2_%d.bin", idx))
+	defer os.Remove(out)
+	rate := []int{20, 50, 120}[rng.Intn(3)]
+	cmd := exec.Command(bin, "attack", "-rate", fmt.Sprint(rate), "-duration", "60s", "-timeout", "40s", "-output", out)
+	cmd.Stdin = bytes.NewReader([]byte("GET " + srv.URL + "/\n"))
+	if err := cmd.Start(); err != nil {
+		return "", false
+	}
+	done := make(chan error, 1)
+	go func() { done <- cmd.Wait() }()
+	time.Sleep(time.Duration(400+rng.Intn(400)) * time.Millisecond)
+	cmd.Process.Signal(syscall.SIGINT)
+	alive := true
+	var werr error
+	select {
+	case werr = <-done:
+		alive = false
+	case <-time.After(time.Duration(800+rng.Intn(700)) * time.Millisecond):
+	}
+	exitOK, inTime := false, false
+	if alive {
+		cmd.Process.Signal(syscall.SIGINT)
+		select {
+		case werr = <-done:
+			inTime = true
+		case <-time.After(10 * time.Second):
+			cmd.Process.Kill()
+			werr = <-done
+		}
+	}
+	exitOK = werr == nil
+	b, _ := os.ReadFile(out)
+	dec := vegeta.NewDecoder(bytes.NewReader(b))
+	seen := map[uint64]bool{}
+	n, dupFree := 0, true
+	for {
+		var r vegeta.Result
+		if err := dec.Decode(&r); err != nil {
+			break
+		}
+		if seen[r.Seq] {
+			dupFree = false
+		}
+		seen[r.Seq] = true
+		n++
+	}
+	bz := func(x bool) int {
+		if x {
+			return 1
+		}
+		return 0
+	}
+	return fmt.Sprintf("%s cli2_%d.0 cli.signal2;nt -1 %d %d %d %d %d %d", prop, idx, atomic.LoadInt64(&hung), n, bz(dupFree), bz(exitOK), bz(alive), bz(inTime)), true
+}
